@@ -6,7 +6,11 @@
    signs, pixel scales / wavelengths / focal lengths over all rationals (every float is one).
    The grid (N0, N1) is a parameter of [propagate_fft_N]: the code takes round_half_even(1/alpha)
    ([fft_grid]), and [propagate_fft] is [propagate_fft_N] at that grid, so each statement holds for it. *)
+(* deepen: Model/Propagate.v (the propagate_dft model) is imported FIRST so that the names it shares with Model/Fft.v
+   (wavefront, wfield, wshape, mkWf, ...) mean the FFT model's below; the DFT model's are written Propagate.xxx *)
+From LV Require Import Model.Propagate Proofs.PropagateP Proofs.ChainP.
 From LV Require Import Model.Fft Proofs.FieldP Proofs.DftP Proofs.FftP Lib.Cis Lib.GRing Lib.Instances.
+From LV Require Import Proofs.FftDeepP Proofs.FftChainP.
 
 (* (a) fftshift(fft2(ifftshift x), norm='ortho') is the unitary defining Fourier sum at alpha = 1/N with both
    origins at index floor(N/2) - for even and odd N alike *)
@@ -229,6 +233,130 @@ Theorem C09_old_shift_order_odd_refuted :
 Proof. exact old_shift_order_odd_refuted. Qed.
 Print Assumptions C09_old_shift_order_odd_refuted.
 
+(* ---------------------------------------------------------------------------------------------------------------
+   deepen (round 6): the whole refusal table, the metadata of the result, the state left in the scratch buffer,
+   np.round, and FFT = DFT on non-square grids *)
+
+(* the refusal table of propagate_fft is exact, with the precedence of the code: tilt metadata (NotImplementedError)
+   before the plane type (TypeError for ptype none) before the output shape (ValueError) before the scratch size
+   (ValueError); otherwise the call succeeds and the result has the requested shape, the reported wavelength, output
+   pixel scale du/oversample, the focal length of the input, the opposite plane type, and exactly one untilted field at
+   offset (0,0) holding the whole N0 x N1 grid; a scratch buffer comes back iff one was supplied *)
+Theorem C09_propagate_fft_verdict :
+  forall (S : Scalar), is_ring S -> forall (sq : Qc -> S) (N0 N1 : Z) (w : Fft.wavefront S) (du : Qc * Qc)
+         (shape : option (Z * Z)) (os : Z) (scratch : option (arr S)),
+  0 < N0 -> 0 < N1 -> (forall f, In f (Fft.wdata w) -> fgood S f) ->
+  (scratch = None -> 0 < fst (Fft.wshape w) /\ 0 < snd (Fft.wshape w)) ->
+  match (if Fft.has_tilt w then Some NotImplementedErr
+         else match Fft.wpt w with
+              | PNone => Some TypeError
+              | _ => if match shape with None => false | Some s => (N0 <? fst s * os) || (N1 <? snd s * os) end
+                     then Some ValueError
+                     else if match scratch with None => false | Some buf => negb ((N0 <=? nr buf) && (N1 <=? nc buf)) end
+                          then Some ValueError else None
+              end) with
+  | Some e => propagate_fft_N sq N0 N1 w du shape os scratch = Err e
+  | None =>
+    exists out sc F, propagate_fft_N sq N0 N1 w du shape os scratch = Ok (out, sc) /\
+      Fft.wshape out = match shape with None => (N0, N1) | Some s => (fst s * os, snd s * os) end /\
+      Fft.wlam out = prop_wavelength N0 N1 (Fft.wpix w) du (Fft.wz w) os /\
+      Fft.wpix out = (fst du / zq os, snd du / zq os)%Qc /\
+      Fft.wz out = Fft.wz w /\
+      Fft.propagate_ptype (Fft.wpt w) = Ok (Fft.wpt out) /\
+      Fft.wdata out = [mkField (D2 F) 0 0 []] /\ nr F = N0 /\ nc F = N1 /\
+      (scratch = None <-> sc = None)
+  end.
+Proof. exact propagate_fft_verdict. Qed.
+Print Assumptions C09_propagate_fft_verdict.
+
+(* frame statement for the scratch buffer: after an accepted call it keeps its shape, holds the input plane (the sum of
+   the zero-extended fields, centred at floor(N/2)) in its N0 x N1 corner whatever it held before, and is untouched
+   everywhere else *)
+Theorem C09_scratch_after_call :
+  forall (S : Scalar), is_ring S -> forall (sq : Qc -> S) (N0 N1 : Z) (w : Fft.wavefront S) du shape os (buf : arr S) out sc,
+  0 < N0 -> 0 < N1 -> (forall f, In f (Fft.wdata w) -> fgood S f) ->
+  propagate_fft_N sq N0 N1 w du shape os (Some buf) = Ok (out, sc) ->
+  exists b', sc = Some b' /\ nr b' = nr buf /\ nc b' = nc buf /\ N0 <= nr buf /\ N1 <= nc buf /\
+    forall i j, 0 <= i < nr buf -> 0 <= j < nc buf ->
+      get b' i j = if (i <? N0) && (j <? N1) then embed_sum (Fft.wdata w) (i - N0 / 2) (j - N1 / 2) else get buf i j.
+Proof. exact scratch_after_call. Qed.
+Print Assumptions C09_scratch_after_call.
+
+(* np.round as _fft_shape uses it: an integer within 1/2 of its argument q = n/d (|2n - 2dr| <= d), the even one at a tie *)
+Theorem C09_round_half_even_nearest :
+  forall q : Qc, let n := Qnum (this q) in let d := Zpos (Qden (this q)) in let r := round_half_even q in
+  d * (2 * r - 1) <= 2 * n <= d * (2 * r + 1).
+Proof. exact round_half_even_nearest. Qed.
+Print Assumptions C09_round_half_even_nearest.
+Theorem C09_round_half_even_ties_to_even :
+  forall q : Qc, let n := Qnum (this q) in let d := Zpos (Qden (this q)) in let r := round_half_even q in
+  (2 * n = d * (2 * r - 1) \/ 2 * n = d * (2 * r + 1)) -> Z.even r = true.
+Proof. exact round_half_even_tie. Qed.
+Print Assumptions C09_round_half_even_ties_to_even.
+
+(* FFT path = DFT path on a NON-SQUARE grid (anisotropic pixel scales): the generalisation of Chain_fft_equals_dft
+   (Properties/Chain.v, square grids).  Side condition: one wavelength serves both axes, N0 dx0 du0 = N1 dx1 du1 (see
+   C09_whole_grids_are_commensurate); the other hypotheses are those of the square case.  [wD] is the same wavefront as
+   propagate_dft reads it (Model/Propagate.v) at the wavelength propagate_fft reports.  Both calls succeed, report the
+   same wavelength and shape, and Wavefront.field agrees sample by sample: the unitary defining sum at alpha = (1/N0, 1/N1) *)
+Theorem C09_fft_equals_dft_anisotropic :
+  forall (S : Scalar), is_ring S -> kernel_laws S -> (forall k : Z, @ke S (zq k) = k1) -> forall (sq : Qc -> S)
+    (wF : Fft.wavefront S) (N0 N1 : Z) (dx du : Qc * Qc) (z : Qc) (os s0 s1 : Z) (scratch : option (arr S)),
+  0 < N0 -> 0 < N1 -> 0 < os ->
+  fst dx <> 0%Qc -> fst du <> 0%Qc -> snd dx <> 0%Qc -> snd du <> 0%Qc -> z <> 0%Qc ->
+  Fft.wpix wF = dx -> Fft.wz wF = z ->
+  fft_grid dx du z (Fft.wlam wF) os = (N0, N1) ->
+  ((zq N0 / zq os * fst dx * fst du) / z)%Qc = ((zq N1 / zq os * snd dx * snd du) / z)%Qc ->
+  Fft.has_tilt wF = false -> Fft.wpt wF <> PNone ->
+  (forall f, In f (Fft.wdata wF) ->
+     match fd f with
+     | D2 a => (0 < nr a /\ 0 < nc a) /\
+               0 <= N0 / 2 - nr a / 2 + offr f /\ N0 / 2 - nr a / 2 + offr f + nr a <= N0 /\
+               0 <= N1 / 2 - nc a / 2 + offc f /\ N1 / 2 - nc a / 2 + offc f + nc a <= N1
+     | D0 _ => False
+     end) ->
+  0 < s0 -> 0 < s1 -> s0 * os <= N0 -> s1 * os <= N1 ->
+  match scratch with
+  | Some buf => N0 <= nr buf /\ N1 <= nc buf
+  | None => 0 < fst (Fft.wshape wF) /\ 0 < snd (Fft.wshape wF) /\
+            forall f r c, In f (Fft.wdata wF) ->
+              inr (fst (Fft.wshape wF)) (r + fst (Fft.wshape wF) / 2) && inr (snd (Fft.wshape wF)) (c + snd (Fft.wshape wF) / 2) = false ->
+              embed f r c = k0
+  end ->
+  let lamF := prop_wavelength N0 N1 dx du z os in
+  let wD := Propagate.mkWf lamF (Some dx) (Some z) (Fft.wshape wF)
+                 (match Fft.wpt wF with PNone => PtNone | PPupil => PtPupil | PImage => PtImage end) (Fft.wdata wF) in
+  exists outF sc oF outD oD,
+    propagate_fft sq wF du (Some (s0, s1)) os scratch = Ok (outF, sc) /\
+    Fft.wfield outF = Ok oF /\ Fft.wlam outF = lamF /\ Fft.wshape outF = (s0 * os, s1 * os) /\
+    Propagate.propagate_dft sq (@no_shift S) wD (fst du) (snd du) (Some (s0, s1)) None os None = Ok outD /\
+    Propagate.wfield outD = Ok oD /\ Propagate.wwl outD = lamF /\ Propagate.wshape outD = (s0 * os, s1 * os) /\
+    nr oF = s0 * os /\ nc oF = s1 * os /\ nr oD = s0 * os /\ nc oD = s1 * os /\
+    forall i j, 0 <= i < s0 * os -> 0 <= j < s1 * os ->
+      get oF i j = get oD i j /\
+      get oF i j =
+        (fold_right (fun f acc =>
+           (match fd f with
+            | D2 a => sumZ (nr a) (fun x => sumZ (nc a) (fun y =>
+                (get a x y * ke (/ zq N0 * zq (x - nr a / 2 + offr f) * zq (i - (s0 * os) / 2)
+                                 + / zq N1 * zq (y - nc a / 2 + offc f) * zq (j - (s1 * os) / 2))%Qc)%K))
+            | D0 _ => k0
+            end + acc)%K) k0 (Fft.wdata wF)
+         * sq (/ zq (N0 * N1))%Qc)%K.
+Proof. exact fft_equals_dft_anisotropic_explicit. Qed.
+Print Assumptions C09_fft_equals_dft_anisotropic.
+
+(* the side condition holds whenever the ideal grid lambda z os/(dx du) is a whole number on both axes; the reported
+   wavelength is then the requested one *)
+Theorem C09_whole_grids_are_commensurate :
+  forall (N0 N1 : Z) (dx du : Qc * Qc) (z : Qc) (os : Z) (lam : Qc),
+  os <> 0 -> fst dx <> 0%Qc -> fst du <> 0%Qc -> snd dx <> 0%Qc -> snd du <> 0%Qc -> z <> 0%Qc ->
+  (lam * z * zq os / (fst dx * fst du))%Qc = zq N0 -> (lam * z * zq os / (snd dx * snd du))%Qc = zq N1 ->
+  ((zq N0 / zq os * fst dx * fst du) / z)%Qc = ((zq N1 / zq os * snd dx * snd du) / z)%Qc /\
+  prop_wavelength N0 N1 dx du z os = lam.
+Proof. exact whole_grids_commensurate. Qed.
+Print Assumptions C09_whole_grids_are_commensurate.
+
 (* the hypotheses on the scalars are satisfiable: the complex numbers with e t = exp(-2 pi i t) *)
 Example C09_nonvacuous : is_ring CS /\ kernel_laws CS /\ (forall z : Z, @ke CS (zq z) = k1).
 Proof. exact (conj CS_ring (conj CS_kernel CS_ke_Z)). Qed.
@@ -248,3 +376,21 @@ Proof.
   change (2 / 2) with 1 in *. change (3 / 2) with 1 in *.
   replace (r - 0 + 1) with (r + 1) by ring. replace (c - 0 + 1) with (c + 1) by ring. rewrite H. reflexivity.
 Qed.
+
+(* deepen: a non-square instance of the anisotropic statement's arithmetic hypotheses (output pixels 1 x 1/2, wavelength 4:
+   grid 4 x 8, both axes attain the reported wavelength), and every row of the refusal table is inhabited *)
+Example C09_nonvacuous_anisotropic :
+  fft_grid (1, 1)%Qc (1, Q2Qc (1 # 2))%Qc 1%Qc (Q2Qc 4) 1 = (4, 8) /\
+  ((zq 4 / zq 1 * 1 * 1) / 1)%Qc = ((zq 8 / zq 1 * 1 * Q2Qc (1 # 2)) / 1)%Qc.
+Proof. split; [vm_compute; reflexivity|apply Qc_is_canon; vm_compute; reflexivity]. Qed.
+
+Example C09_nonvacuous_verdict :
+  let f0 : field ZS := mkField (D2 (mkArr (S := ZS) 2 2 (fun i j => (1 : ZS)))) 0 0 [] in
+  let ft : field ZS := mkField (D2 (mkArr (S := ZS) 2 2 (fun i j => (1 : ZS)))) 0 0 [TiltAng 0%Qc 0%Qc] in
+  let w (fs : list (field ZS)) (p : Fft.ptype) : Fft.wavefront ZS := Fft.mkWf fs (2, 2) 1%Qc (1%Qc, 1%Qc) 1%Qc p in
+  expected_error ZS 4 4 (w [f0; ft] PNone) (Some (9, 9)) 1 (Some (azeros 1 1)) = Some NotImplementedErr /\
+  expected_error ZS 4 4 (w [f0] PNone) (Some (9, 9)) 1 (Some (azeros 1 1)) = Some TypeError /\
+  expected_error ZS 4 4 (w [f0] PImage) (Some (2, 5)) 1 (Some (azeros 1 1)) = Some ValueError /\
+  expected_error ZS 4 4 (w [f0] PPupil) (Some (2, 4)) 1 (Some (azeros 4 3)) = Some ValueError /\
+  expected_error ZS 4 4 (w [f0] PPupil) (Some (2, 4)) 1 (Some (azeros 4 4)) = None.
+Proof. cbv zeta. repeat split; reflexivity. Qed.
